@@ -236,6 +236,8 @@ class Model:
         self.return_numpy = False
         # listeners: fn(kind, samples, values_np)
         self.listeners: list = []
+        # pre-listeners: fn(kind) at the very start of a call, before any fault
+        self.pre_listeners: list = []
 
     def _raise(self, seam, k):
         self.fired.append((seam, k, self.crash_kind, self.trace.phase))
@@ -260,6 +262,8 @@ class SimPrior:
 
     def __call__(self, samples, map_fn=map):
         m = self.model
+        for fn in m.pre_listeners:
+            fn("prior")
         k = m.n_prior_calls
         if m.crash_prior_at is not None and k == m.crash_prior_at:
             m.n_prior_calls += 1
@@ -292,6 +296,8 @@ class SimLikelihood:
 
     def __call__(self, samples, map_fn=map):
         m = self.model
+        for fn in m.pre_listeners:
+            fn("like")
         k = m.n_like_calls
         if m.stop_after_like_calls is not None and k >= m.stop_after_like_calls:
             raise SimStop(f"like@{k}")
